@@ -236,6 +236,27 @@ class Totality:
             if ki is not None and kl is not None:
                 return ("Ge", ki, kl, True)
             return None
+        if site.kind == "assert:Overflow" and "b" in t:
+            # arithmetic overflow of an unsigned operation as a comparison of its operands
+            ka, kb = pk(t["a"]), pk(t["b"])
+            tn = None
+            for o in (t["a"], t["b"]):
+                if o.get("o") in ("copy", "move") and not o["p"]:
+                    tn = view.local_tyname(o["l"])
+                elif o.get("o") == "const" and isinstance(o.get("ty"), str):
+                    tn = tn or o["ty"]
+            rng = absint.ty_range(tn) if tn else None
+            if rng is None or rng[0] != 0 or ka is None or kb is None:
+                return None
+            if t["op"] == "Sub":
+                return ("Lt", ka, kb, True)
+            if t["op"] == "Add" and absint.is_c(kb):
+                return ("Gt", ka, ("c", rng[1] - kb[1]), True)
+            if t["op"] == "Add" and absint.is_c(ka):
+                return ("Gt", kb, ("c", rng[1] - ka[1]), True)
+            if t["op"] == "Mul" and absint.is_c(kb) and kb[1] > 0:
+                return ("Gt", ka, ("c", rng[1] // kb[1]), True)
+            return None
         if site.kind.startswith("assert:"):
             c = t["cond"]
             if c.get("o") in ("copy", "move") and not c["p"]:
